@@ -218,6 +218,98 @@ fn c17(idx: usize) -> i32 {
   0
 }
 
+/// "Twin" scenarios: several threads start the SAME calls at the same instant (barrier), so that state that
+/// is filled lazily on first use (tables, caches, interned strings) is first used by all of them at once:
+/// the classic check-then-act window. Documents grow, so every round touches indices / keys / literals
+/// nobody has seen yet.
+const TWIN: &[Scn] = &[
+  // the first non-conforming element sits at index 0, 1, 2, ...: every small index shows up in an error location
+  Scn { schema: "root = [* item]\nitem = uint / tstr .size 2\n", docs: &[('j', r#"["bad"]"#), ('j', r#"[1,"bad"]"#), ('j', r#"[1,2,"bad"]"#), ('j', r#"[1,2,3,true]"#), ('j', r#"[1,2,3,4,"bad!"]"#), ('j', r#"[1,2,3,4,5,null]"#), ('j', r#"[1,2,3,4,5,6,[7]]"#)] },
+  // wide: more threads (see twin()), longer arrays: many first visits of new indices by several threads at once
+  Scn { schema: "root = [* uint]\n", docs: &[('j', r#"[0,1,2,3,4,5,6,7,"x"]"#), ('j', r#"[0,1,2,3,4,5,6,7,8,9,10,11,12,13,14,15,"x"]"#), ('j', r#"[0,"x"]"#), ('j', r#"[0,1,2,3,"x"]"#), ('j', r#"[0,1,2,3,4,5,6,7,8,9,10,11,"x"]"#), ('j', r#"[0,1,2,3,4,5,6,7,8,9,10,11,12,13,14,15,16,17,18,19,20,21,22,23,"x"]"#), ('j', r#"[0,1,2,3,4,5,6,7,8,9,10,11,12,13,14,15,16,17,18,19,"x"]"#)] },
+  Scn { schema: "root = { * tstr => v }\nv = int / [* v] / { * tstr => v }\n", docs: &[('j', r#"{"a":1,"b":"x"}"#), ('j', r#"{"a":[1,[2,"y"]],"c":{"d":{"e":null}}}"#), ('j', r#"{"k1":1,"k2":2,"k3":[0,1,2,3.5]}"#)] },
+  Scn { schema: "root = [* t]\nt = tstr .regexp \"[a-f]+\" / uri / tdate\n", docs: &[('j', r#"["abc","urn:a:b","zzz"]"#), ('j', r#"["2020-01-01T00:00:00Z","abcdef","x:","no"]"#), ('c', "8263616263617a")] },
+];
+
+fn twin(idx: usize, sequential: bool) -> i32 {
+  let scn = &TWIN[idx % TWIN.len()];
+  let nthreads = if idx % TWIN.len() == 1 { 6usize } else { 3usize };
+  let barrier = std::sync::Barrier::new(nthreads);
+  let ast = cddl::cddl_from_str(scn.schema, false).expect("twin schema parses");
+  let mut all: Vec<Vec<String>> = Vec::new();
+  if sequential {
+    for _ in 0..nthreads {
+      all.push(scn.docs.iter().map(|(k, d)| call_shared(&ast, *k, d)).collect());
+    }
+  } else {
+    std::thread::scope(|s| {
+      let hs: Vec<_> = (0..nthreads)
+        .map(|_| {
+          let barrier = &barrier;
+          let ast = &ast;
+          s.spawn(move || {
+            let mut out = Vec::new();
+            for (k, d) in scn.docs.iter() {
+              // everything that can be prepared is prepared before the barrier (document parsed, validator
+              // built), so that the threads enter the validator within a few basic blocks of each other
+              match *k {
+                'j' => match serde_json::from_str::<serde_json::Value>(d) {
+                  Ok(v) => {
+                    let mut jv = cddl::validator::json::JSONValidator::new(ast, v, None);
+                    barrier.wait();
+                    out.push(json_resp(jv.validate()));
+                  }
+                  Err(e) => {
+                    barrier.wait();
+                    out.push(format!("docerr:{}", e));
+                  }
+                },
+                _ => match cddl::validator::cbor_value::decode_cbor(&hexd(d)) {
+                  Ok(v) => {
+                    let mut cv = cddl::validator::cbor::CBORValidator::new(ast, v, None);
+                    barrier.wait();
+                    out.push(cbor_resp(cv.validate()));
+                  }
+                  Err(e) => {
+                    barrier.wait();
+                    out.push(format!("docerr:{}", e));
+                  }
+                },
+              }
+            }
+            out
+          })
+        })
+        .collect();
+      for h in hs {
+        all.push(h.join().expect("twin thread"));
+      }
+    });
+  }
+  // every thread made the same calls: all must have seen the same responses ...
+  for t in 1..all.len() {
+    if all[t] != all[0] {
+      let i = (0..all[0].len()).find(|i| all[t][*i] != all[0][*i]).unwrap_or(0);
+      println!("MISMATCH twin {} call {}: thread {} got {:?} but thread 0 got {:?}", idx, i, t, all[t][i], all[0][i]);
+      return 1;
+    }
+  }
+  // ... and the same as a later sequential call
+  for (i, (k, d)) in scn.docs.iter().enumerate() {
+    let r = call_shared(&ast, *k, d);
+    if r != all[0][i] {
+      println!("MISMATCH twin {} call {}: concurrent {:?} vs sequential afterwards {:?}", idx, i, all[0][i], r);
+      return 1;
+    }
+  }
+  let mut digest = 0xcbf29ce484222325u64;
+  for r in &all[0] {
+    digest = fnv(digest, r.as_bytes());
+  }
+  println!("RESULT twin {} digest={:016x} trace=-", idx, digest);
+  0
+}
+
 fn main() {
   let args: Vec<String> = std::env::args().collect();
   let kind = args.get(1).map(|s| s.as_str()).unwrap_or("list");
@@ -225,8 +317,11 @@ fn main() {
   let code = match kind {
     "c14" => c14(idx),
     "c17" => c17(idx),
+    "twin" => twin(idx, false),
+    // the same calls without concurrency: the digest every concurrent execution must reproduce
+    "twinseq" => twin(idx, true),
     _ => {
-      println!("c14 {} c17 {}", C14.len(), C17.len());
+      println!("c14 {} c17 {} twin {}", C14.len(), C17.len(), TWIN.len());
       0
     }
   };
